@@ -127,6 +127,38 @@ def coverage_world(seed, kinds, annotated=False):
                         add(start + 100, cur + 900, intron=(start + 400, cur + 500))
                     cur = cur + 1000
             end = cur
+        elif kind == "neighbour_in_bin":
+            # two clusters 20 bp apart whose facing ends lie in ONE 256-bp bin: the first cluster's only alignment ending in that bin is its
+            # last one; the second begins with three short reads lying entirely inside the bin and goes on as a > 64 kb chain with
+            # coverage valleys (processed in several regions)
+            b0 = (start // BIN + 6) * BIN
+            names_a = []
+            for s_, e_ in ((b0 - 1300, b0 - 900), (b0 - 1100, b0 - 700), (b0 - 900, b0 - 500), (b0 - 700, b0 - 300), (b0 - 500, b0 + 30)):
+                r = w.make_read("chr1", [(s_, e_)], truth={"cluster": len(clusters), "kind": "neighbour_in_bin:first"})
+                names_a.append(r.name)
+            clusters.append({"kind": "neighbour_in_bin:first", "start": b0 - 1300, "end": b0 + 30, "reads": names_a})
+            for s_, e_ in ((b0 + 51, b0 + 120), (b0 + 55, b0 + 130), (b0 + 60, b0 + 140)):
+                add(s_, e_)
+            cur = b0 + 100
+            start = b0 + 51
+
+            def cover2(length, step, rlen):
+                nonlocal cur
+                c2 = cur
+                stop = cur + length
+                while c2 + rlen < stop:
+                    add(c2, c2 + rlen)
+                    c2 += step
+                add(stop - rlen, stop)
+                cur = stop
+            cover2(rng.randint(33500, 36000), 300, 1000)
+            add(cur - 100, cur + 700)
+            cur += 600
+            cover2(rng.randint(33500, 36000), 300, 1000)
+            add(cur - 100, cur + 500)
+            cur += 400
+            cover2(rng.randint(3000, 6000), 300, 1000)
+            end = cur
         elif kind == "gene_valley":
             # a four-exon gene with a 36-kb middle intron: pile-ups over exons 1-2 and 3-4, ONE full-length read bridging the
             # coverage-1 stretch (processed in both sub-regions), which also has a secondary alignment upstream of the cluster
@@ -369,13 +401,13 @@ def run(chk, scratch):
     thorough = chk.tier == "thorough"
     chk.rule = ("generated coverage profiles: >=1024-read pile-ups inside one and two 256-bp bins, dense blocks separated by thin valleys at random "
                 "offsets relative to the bins, a valley followed by short reads lying only in the last bin, >32 kb sparse clusters, spliced reads bridging "
-                "blocks, a gene over a coverage-1 stretch whose only bridging read also has a secondary alignment elsewhere, spliced reads that leave a two-isoform gene and name no isoform at all, small clusters; genic reads of known kind (consistent, extra exon, two skipped exons, intronic) and gene-free 1/2/3-exon reads at MAPQ 0-6 with both MAPQ cut-offs at their defaults and set explicitly (0/0, 3/2, ...); supplementary and unmapped records as labelled filtered categories; x {BAM storage, in-memory storage} x "
+                "blocks, a gene over a coverage-1 stretch whose only bridging read also has a secondary alignment elsewhere, spliced reads that leave a two-isoform gene and name no isoform at all, small clusters, two clusters whose facing ends share one 256-bp bin (the second one split); genic reads of known kind (consistent, extra exon, two skipped exons, intronic) and gene-free 1/2/3-exon reads at MAPQ 0-6 with both MAPQ cut-offs at their defaults and set explicitly (0/0, 3/2, ...); supplementary and unmapped records as labelled filtered categories; x {BAM storage, in-memory storage} x "
                 "{annotation-free, annotated}; in-process collector + CLI runs. non-trivial = distinct (cluster kind, #regions returned, storage, annotated) "
                 "tuples where the cluster was split into >=2 regions or fell into the single-bin case")
     n_inproc = 40 if thorough else 6
     n_cli = 10 if thorough else 2
-    kind_sets = [["pile1bin", "valleys", "small", "lowmapq_spliced"], ["valleys_tail", "long_sparse", "gene_valley", "lowmapq_spliced", "no_match_spliced"], ["pile2bins", "bridged", "valleys", "no_match_spliced"],
-                 ["valleys_tail", "pile1bin"], ["long_sparse", "valleys", "small"], ["bridged", "valleys_tail"]]
+    kind_sets = [["pile1bin", "valleys", "small", "lowmapq_spliced"], ["valleys_tail", "long_sparse", "gene_valley", "lowmapq_spliced", "no_match_spliced"], ["pile2bins", "bridged", "valleys", "no_match_spliced", "neighbour_in_bin"],
+                 ["valleys_tail", "pile1bin", "neighbour_in_bin"], ["long_sparse", "valleys", "small"], ["bridged", "valleys_tail", "neighbour_in_bin"]]
     jobs = []
     worlds = {}
     for i in range(n_inproc):
